@@ -135,6 +135,22 @@ CLAIMED["C06"] = {
     "design_ref": "DESIGN.md section 8, C06",
 }
 
+CLAIMED["C07"] = {
+    "text": "Theorems C07_packet (for EVERY packet, validator state and configuration: each message emitted while a payload is checked either "
+            "quotes exactly the j-th word handed to the checker and is located at packet offset + 64 + j*slot with the slot of the HEADER's "
+            "data format, or quotes nothing and is located at such a word position or at the position of the TDH that opened the readout "
+            "frame being closed; never elsewhere), C07_quoted_bytes (the j-th word is the 10 payload bytes at j*detected slot -- with the "
+            "property's layout proviso these are the bytes at the reported offset), C07_rdh_messages ([E10]/[E11] carry the packet's own "
+            "offset) and C07_word are proved over Model/CdpRunning.v + Model/Link.v by case analysis of every word class and induction over "
+            "the words (16-bit word counter and 64-bit position wrap-around handled by explicit bounds). Offsets of packets under filters "
+            "come from C03. Tied to the code by re-checking EVERY error line the binary prints on corrupted multi-link streams, with and "
+            "without filters, against the input bytes (offset legit, `[..]` dump, `current :` row), and by model-vs-code message lists.",
+    "note": "Trusted: Coq kernel; harness; binary; extraction + driver; the parser of the tool's message format; the Python chain walk. The "
+            "`current :` row text is compared in the CLI stream only (the model keeps header fields, not text). [E100]/[E101] labels are C18's.",
+    "technique": "Coq proof (invariant on the word tracker through every branch of the packet validator; list induction) + every printed error line re-checked against the input",
+    "design_ref": "DESIGN.md section 8, C07",
+}
+
 ALL = ["C%02d" % i for i in range(1, 21)]
 PENDING_REASON = "not claimed yet: the model/proof for this property is still under construction in this development (see DESIGN.md section 12 build order); no check is registered until its theorem file compiles without admits and its correspondence stream runs"
 
